@@ -128,7 +128,8 @@ def case_strategy(draw):
         c = draw(c06.program_case())
         c["via_text"] = False
         return dict(c, sim={"kind": "toy"}, sched=sched, max=60)
-    dc = draw(cachecfg.maybe(st.one_of(cachecfg.small_cache_config(), cachecfg.small_cache_config(), cachecfg.cache_config())))
+    multiway = st.builds(lambda c, w: dict(c, ways=w), cachecfg.cache_config(max_idx=1, max_blk=1, max_ways=2), st.sampled_from([2, 4]))
+    dc = draw(cachecfg.maybe(st.one_of(cachecfg.small_cache_config(), multiway, multiway, cachecfg.cache_config())))
     ic = draw(cachecfg.maybe(cachecfg.small_cache_config()))
     prog = draw(rvprog.mem_heavy_case(16) if dc else st.one_of(rvprog.program_case(12), rvprog.mem_heavy_case(14)))
     return dict(prog, sim={"kind": kind, "dcache": dc, "icache": ic}, sched=sched, max=120)
@@ -145,7 +146,7 @@ def corpus():
 
 
 def shards(tier, seed):
-    n, k = (100, 4) if tier == "quick" else (750, 16)
+    n, k = (160, 4) if tier == "quick" else (750, 16)
     return [{"n": n, "seed": seed * 1000 + i} for i in range(k)]
 
 
